@@ -1,7 +1,8 @@
 (* C13 -- property theorems only: statement + exact + Print Assumptions.
    run c hs     = the world after the history hs (caller actions and calls) on destination
                   manager c (cfg_tj = jdatadst-tj.c as read from the source, cfg_ijg = jdatadst.c)
-   w_ok         = no misuse by the caller and no hazard (address recycling, *jpegSize = 0 on reuse)
+   w_ok         = no misuse by the caller and no hazard (address recycling; with the allocation-branch
+                  condition before the zero-size fix also *jpegSize = 0 on reuse)
    lib_clean    = the library performed no write outside a live block, no over-read, no free of a
                   dead / caller-allocated / handed-over block
    chunks_ok    = every chunk stored through the jchuff.c STORE_BUFFER protocol is < BUFSIZE bytes *)
@@ -68,16 +69,19 @@ Theorem C13_reuse_safe_old_rule_refuted :
 Proof. exact old_rule_double_free. Qed.
 Print Assumptions C13_reuse_safe_old_rule_refuted.
 
-(* the two hypotheses hidden in w_ok cannot be dropped: each is refuted on the CURRENT rule *)
+(* the hypothesis hidden in w_ok (malloc does not hand the address of the previous result to a
+   smaller caller block) cannot be dropped: refuted on the CURRENT rule *)
 Theorem C13_reuse_safe_recycled_address_refuted :
   verdict (run cfg_tj hist_aba) = (false, [NRecycled], Some (BadOverrun 2 100)).
 Proof. exact aba_overrun. Qed.
 Print Assumptions C13_reuse_safe_recycled_address_refuted.
 
-Theorem C13_reuse_safe_zero_size_refuted :
-  verdict (run cfg_tj hist_zero) = (false, [NZeroReuse], Some (BadOverrun 3 4096)).
+(* *jpegSize = 0 on reuse: refuted for the allocation-branch condition before the fix, fine now *)
+Theorem C13_reuse_safe_zero_size_old_rule_refuted :
+  verdict (run cfg_tj_oldzero hist_zero) = (false, [NZeroReuse], Some (BadOverrun 3 4096)) /\
+  verdict (run cfg_tj hist_zero) = (true, [], None).
 Proof. exact zero_size_reuse_overrun. Qed.
-Print Assumptions C13_reuse_safe_zero_size_refuted.
+Print Assumptions C13_reuse_safe_zero_size_old_rule_refuted.
 
 (* the producer hypothesis is sharp: a directly stored chunk of exactly BUFSIZE bytes overruns *)
 Theorem C13_chunk_bound_sharp :
